@@ -154,6 +154,9 @@ fn run_case(case: &Case, st: &mut RunStats) -> Outcome<Case> {
                     // excused where a point not yet handed out stores a state outside its set (the
                     // iterator converts a packet's points in one go, so it may stop ahead of it)
                     let excused = raw_failed || wants.iter().skip(points.len()).any(|w| w.is_none());
+                    if !excused && std::env::var("E57SIM_TRACE").is_ok() {
+                        eprintln!("not excused: wants={:?} proto={:?} raw={:?}", wants.iter().map(|w| w.is_some()).collect::<Vec<_>>(), desc.proto, raw_points);
+                    }
                     if !excused {
                         let class = if e.contains("logic error") { "simple-fails-logic-error" } else { "simple-fails-alone" };
                         return Outcome::fail(class, format!("{what}: simple iterator failed after {} points ({e}) where the raw iterator reads all {} points", points.len(), raw_points.len()));
